@@ -429,7 +429,10 @@ def run(ctx) -> None:
         ctx.check("R1", a_ == d_ and all(x == d_ for x in b_), f"legacy field {f_}: cal_info and the reader both use %{d_} (decimal)",
                   f"v1version: calendar field '{f_}' is not read from %{d_} in base 10 by both producers",
                   f"cal_info: {a_}, reader: {b_}: a rendered {{{f_}}} does not read back to the value it was rendered from", loc=ci1.loc(), witness={"field": f_, "cal_info": a_, "reader": b_})
-    from checks.c02 import parsed_quarter_rule, part_language_band_rule
+    from checks.c05 import none_filter_rule
+    none_filter_rule(ctx, "v1version", "R4")          # "strictly greater than their input": the future guard compares every calendar field the two sides have
+    from checks.c02 import parsed_quarter_rule, part_language_band_rule, int_reads_rule
+    int_reads_rule(ctx, "R1", "v1version._parse_field_values", ("year", "quarter", "month", "dom", "doy", "major", "minor", "patch"))
     parsed_quarter_rule(ctx, "R1", "v1version._parse_field_values")
     import re as _re20
     part_language_band_rule(ctx, "R1", "v1patterns", V1_PART_REF, V1_PART_REF, min_flags=_re20.ASCII)
